@@ -148,8 +148,9 @@ def gen_instances(seed, si, tier):
     """-> (schema, builder, validator, [[family, label, El, Result], ...]) ; deterministic in (seed, si, tier)"""
     r = core.rng(seed, PID, 'schema', si)
     # every eighth schema exercises two wildcards over one namespace (deterministic only through counting)
-    # ... and every eighth an all group (rare constructs must be present in every run, also in the small quick tier)
-    s = xg.gen_schema(r, {'twowild': True, 'content': 'elements', 'all': False} if si % 8 == 5 else {'all': True, 'content': 'elements', 'twowild': False} if si % 8 == 3 else None)
+    # ... every eighth an all group, every eighth an abstract substitution head (rare constructs must be present in every run)
+    s = xg.gen_schema(r, {'twowild': True, 'content': 'elements', 'all': False} if si % 8 == 5 else {'all': True, 'content': 'elements', 'twowild': False} if si % 8 == 3
+                      else {'head': True, 'content': 'elements', 'twowild': False} if si % 8 == 1 else None)
     bld = xg.Builder(s)
     val = xg.Validator(s)
     info = s.info
